@@ -154,7 +154,7 @@ fn modules<const N: usize>() {
         }
         off += round8(size);
     }
-    cover!(n == 2, "two modules");
+    cover!(n == (N - 16) / 16, "as many modules as fit");
     cover!(n == 0, "no module");
     vassert!(m.next().is_none(), "module iterator yields nothing else");
     vassert!(m.next().is_none(), "module iterator stays exhausted");
